@@ -232,6 +232,56 @@ theorem same_schedule_as_is_delivers :
       [.begin 0, .giveup 0, .begin 0, .deliver 0, .loop .hreturn, .loop .ack, .begin 0, .deliver 0]
     s.seenFrom 0 = [upsert 1, upsert 2] ∧ (s.recs.map Rec.dropped) = [[]] := by decide
 
+/-! ### The loop never stops reading, and an idle loop handles an offered event at once -/
+
+/-- Until the loop takes its `<-ctx.Done()` arm it is at its `select` with the `eventCh` arm enabled:
+no buffer state, batch size or history disables receiving (there is no back-pressure in the loop). -/
+theorem loop_always_receives (first : List Ev) (as : List Act) (h : Act.cancel ∉ as) (e : Ev) :
+    Loop.enabled (Loop.run (Loop.init first) as) (.recv e) = true := by
+  have hp : ∀ (as : List Act) (s : Loop), Act.cancel ∉ as → s.phase = .select →
+      (Loop.run s as).phase = .select := by
+    intro as
+    induction as with
+    | nil => intro s _ hs; exact hs
+    | cons a t ih =>
+      intro s hn hs
+      have ha : a ≠ .cancel := fun h' => hn (by simp [h'])
+      have ht : Act.cancel ∉ t := fun h' => hn (by simp [h'])
+      simp only [Loop.run]
+      split
+      · next he =>
+        apply ih _ ht
+        by_cases hd : a = .drainack
+        · subst hd; simp [Loop.enabled, hs] at he
+        · rw [phase_other s a ha hd]; exact hs
+      · exact ih _ ht hs
+  simp [Loop.enabled, hp as (Loop.init first) h rfl]
+
+/-- **idle_event_handled_at_once** ("no event waits once the handler is idle", the step form of
+`idle_implies_empty_next`). In every reachable state in which the handler is idle and the loop has not
+stopped, an offered event is received and IMMEDIATELY handed to the handler as a batch of its own —
+whatever the sizes of the batches handled before (also after a start-up batch or a burst of any size). -/
+theorem idle_event_handled_at_once (first : List Ev) (as : List Act) (e : Ev) :
+    let s := Loop.run (Loop.init first) as
+    s.phase = .select → s.handling = false →
+    Loop.enabled s (.recv e) = true ∧ (Loop.step s (.recv e)).log = s.log ++ [[e]] ∧
+    (Loop.step s (.recv e)).h = .running ∧ (Loop.step s (.recv e)).next = [] := by
+  intro s hp hh
+  have hn : s.next = [] := (idle_implies_empty_next first as hh).1
+  clear_value s
+  refine ⟨by simp [Loop.enabled, hp], ?_⟩
+  cases hc : s.cur <;>
+    simp_all [Loop.step, swapAndHandle, Loop.start, swap, Loop.setCell, Loop.next, Loop.current, Loop.cell]
+
+/-- non-vacuity: start-up batch of 1030 events handled, loop idle, then an event; and an EMPTY start-up
+batch is still the handler's first batch -/
+example :
+    let s := Loop.run (Loop.init (List.range 1030)) [.hreturn, .ack]
+    s.phase = .select ∧ s.handling = false ∧ (Loop.step s (.recv 5000)).log = [List.range 1030, [5000]] := by
+  decide +kernel
+
+example : (Loop.run (Loop.init []) [.hreturn, .ack, .recv 7]).log = [[], [7]] := by decide
+
 /-! ### The start-up batch -/
 
 /-- `prepare` returns exactly: the present individually-fetched objects in configuration order, then the
